@@ -121,3 +121,15 @@ Theorem c20_spelling_exists : forall s,
   str_ok s -> Forall (fun c => 8 <= c) s -> Enc DQ s (json_body s).
 Proof. exact enc_exists. Qed.
 Print Assumptions c20_spelling_exists.
+
+(** Conversely, whatever the number rule of the lexer returns is a prefix of
+    the text and a spelling of the kind it is classified as. *)
+Theorem c20_num_token_sound : forall s k v r,
+  num_token s = Some (k, v, r) ->
+  s = v ++ r /\
+  match k with
+  | KInt => exists sp, intsp_wf sp /\ v = intsp_src sp
+  | KFloat => exists sp, floatsp_wf sp /\ v = floatsp_src sp
+  end.
+Proof. exact num_token_sound. Qed.
+Print Assumptions c20_num_token_sound.
